@@ -516,7 +516,7 @@ func init() {
 			"Every 50th case: ConvertStack/ConvertCondition on 18 non-convertible values (nil, zero aliases, typed nils, pointers to zero aliases, unrelated types) must give (zero,false). non-trivial = at least one alias below the root AND one alias as a Condition expression; distinct = aliased tree description.",
 		Assumptions: []string{"an alias is rendered through its native conversion whether or not it has a String method of its own, and whatever that method returns"},
 		Floors: func(string) map[string]int64 {
-			return map[string]int64{"tree-pairs": 10000, "trees.alias-below-root-and-as-condition-expression": 1500, "alias-forms-probed": 5000, "convert-batteries": 100, "condition-nodes": 5000}
+			return map[string]int64{"tree-pairs": 10000, "trees.with-nested-read-only": 3000, "cases.with-bystander-goroutines": 800, "trees.alias-below-root-and-as-condition-expression": 1500, "alias-forms-probed": 5000, "convert-batteries": 100, "condition-nodes": 5000}
 		},
 	})
 }
